@@ -60,7 +60,16 @@ def run(chk):
     items = Slicer(sym, sql, scfg.subject, sym.cls("Filter")).slice(scfg.func.body)
     cond = next((it for it in items if isinstance(it, Cond)), None)
     if cond is None:
-        raise AnalysisError("C04/R2: SQL Filter branch has no condition on the grouping state")
+        chk.fail("R2", sql, scfg.func, "Filter: `if query.group_by:` -> query.having else query.where",
+                 "the SQL Filter branch does not distinguish a grouped SELECT: a filter after summarize must go to HAVING, before it to WHERE")  # fmt: skip
+
+        class _Dummy:
+            test = ast.parse("None").body[0].value
+            body: list = []
+            orelse: list = []
+            node = scfg.func
+
+        cond = _Dummy()
     test_ok = norm(cond.test) == "query.group_by"
 
     def targets(block):
@@ -156,6 +165,19 @@ def run(chk):
                f"context keyword `{kw}=` is declared by {ops_with[:6]}.. but no back end reads context_kwargs['{kw}'] "
                f"({ {b: r for b, r in read_by.items()} }) and {detail}: the argument is silently ignored "
                "(e.g. pdt.count(filter=..) counts all rows)")  # fmt: skip
+
+    # a filtered row count stays a *count*: if ColFn.__init__ rewrites the operator of a 0-ary aggregate whose filter it
+    # folds away, the replacement must be a counting aggregate (0, never null, when no row qualifies)
+    counting_ops = {v for v, op in cat.ops.items() if op.ftype == "AGGREGATE" and op.name.split(".")[-1] == "count"}
+    for n in ast.walk(init):
+        if isinstance(n, ast.If) and "len(self.args) == 0" in norm(n.test):
+            for st in n.body:
+                if isinstance(st, ast.Assign) and norm(st.targets[0]) == "self.op":
+                    d = dotted(st.value) or ""
+                    new_op = d[4:] if d.startswith("ops.") else None
+                    chk.ob("R3", ce, st, f"0-ary aggregate with filter is rewritten to ops.{new_op}", new_op in counting_ops,
+                           f"`count(filter=..)` is rewritten to `ops.{new_op}`, which is not a counting aggregate ({sorted(counting_ops)}): for a group "
+                           "in which no row satisfies the filter it yields null instead of 0")  # fmt: skip
 
     # ---- R4 polars
     pf = readers["polars"]
